@@ -104,6 +104,17 @@ func recordAPI(r *recorder, a *args) {
 				for _, v2 := range verOrder {
 					r.parse(g, v2, s)
 				}
+				// parse - edit the result - parse the same string again: the second result is what the string says
+				if p1, h1 := r.parse(g, ver, s); p1 != nil {
+					for k := 0; k < 3; k++ {
+						m := ord[rng.Intn(len(ord))]
+						r.set(g, ver, h1, p1, m, vals[m][rng.Intn(len(vals[m]))])
+					}
+					if p2, h2 := r.parse(g, ver, s); p2 != nil {
+						r.vector(g, ver, h2, p2)
+					}
+					r.vector(g, ver, h1, p1)
+				}
 				for k := 0; k < 3; k++ {
 					r.parse(g, ver, mutateBytes(rng, s))
 				}
